@@ -20,7 +20,38 @@ def _num(m, k, default):
     return default
 
 
+def replay_nonalias_operands(ob):
+    """expression classes around an operand that is NOT alias-safe (Laplacian): op(x, out=y) with y a different object must equal op(x)"""
+    odl = _odl()
+    import numpy as np
+    from odl.operator import operator as O
+    rng = np.random.default_rng(4)
+    X = odl.uniform_discr([0, 0], [1, 1], (5, 6))
+    L = odl.Laplacian(X, pad_mode='symmetric')
+    P = odl.PartialDerivative(X, 0, pad_mode='constant', pad_const=1.5)
+    v = X.element(rng.standard_normal(X.shape))
+    exprs = {'OperatorRightScalarMult': lambda A: O.OperatorRightScalarMult(A, 2.0), 'OperatorLeftScalarMult': lambda A: O.OperatorLeftScalarMult(A, 2.0),
+             'OperatorSum': lambda A: O.OperatorSum(A, A), 'OperatorComp': lambda A: O.OperatorComp(A, A), 'OperatorLeftVectorMult': lambda A: O.OperatorLeftVectorMult(A, v),
+             'OperatorRightVectorMult': lambda A: O.OperatorRightVectorMult(A, v), 'OperatorVectorSum': lambda A: O.OperatorVectorSum(A, v)}
+    for name, mk in exprs.items():
+        for A in (L, P):
+            op = mk(A)
+            x = X.element(rng.standard_normal(X.shape))
+            x0 = x.copy()
+            want = op(x)
+            y = X.element(rng.standard_normal(X.shape))
+            got = op(x, out=y)
+            if got is not y or (y - want).norm() > 1e-9 * max(1.0, want.norm()) or (x - x0).norm() != 0:
+                return {'reproduced': True, 'detail': '%s around %s: op(x, out=y) differs from op(x) by %.3g (x changed: %r)' % (name, type(A).__name__, (y - want).norm(), (x - x0).norm() != 0)}
+    return {'reproduced': False, 'detail': 'in-place == out-of-place for expression classes around operands that are not alias-safe'}
+
+
 def replay(ob):
+    if 'aliased to its input' in ob.get('name', ''):
+        try:
+            return replay_nonalias_operands(ob)
+        except Exception as e:
+            return {'reproduced': False, 'detail': 'replay harness error: %r' % (e,)}
     info = ob.get('info') or {}
     m = ob.get('model') or {}
     odl = _odl()
